@@ -253,7 +253,9 @@ def generate(prop, seed, tier="quick", fault_free=False):
                         "base": -2, "stages": base, "repeat": rep_k, "mode": "str", "layout": 0,
                         "dataset": 0, "post": None, "qmd": False, "exec_before": False,
                         "want_pickle": False, "hash_early": False, "lift": False,
-                        "limit": limit, "depths": w.choice([[0, 30, 120], [0, 10, 60, 250], [5, 0, 400]])})
+                        "limit": limit, "depths": w.choice([[0, 30, 120], [0, 10, 60, 250], [5, 0, 400],
+                                              # overflow first, then enough stack (recovery)
+                                              [400, 0, 5], [250, 60, 0, 250, 0]])})
             bid += 1
     # constant family: values that are equal in Python but differ in type (1 == 1.0 == True),
     # captured one after the other in the same process, each with its written-out twin
